@@ -8,10 +8,10 @@ import numpy as np
 
 from regions._geometry import polygonal_overlap_grid
 from regions._geometry.pnpoly import points_in_polygon
-from regions.core.attributes import (OneDPixCoord, OneDSkyCoord,
-                                     PositiveScalar, RegionMetaDescr,
-                                     RegionVisualDescr, ScalarAngle,
-                                     ScalarPixCoord)
+from regions.core.attributes import (NumberOfVertices, OneDPixCoord,
+                                     OneDSkyCoord, PositiveScalar,
+                                     RegionMetaDescr, RegionVisualDescr,
+                                     ScalarAngle, ScalarPixCoord)
 from regions.core.bounding_box import RegionBoundingBox
 from regions.core.core import PixelRegion, SkyRegion
 from regions.core.mask import RegionMask
@@ -293,7 +293,7 @@ class RegularPolygonPixelRegion(PolygonPixelRegion):
 
     _params = ('center', 'nvertices', 'radius', 'angle')
     center = ScalarPixCoord('The center pixel position as a |PixCoord|.')
-    nvertices = PositiveScalar('The number of polygon vertices.')
+    nvertices = NumberOfVertices('The number of polygon vertices.')
     radius = PositiveScalar('The distance from the center to any vertex in '
                             'pixels as a float.')
     angle = ScalarAngle('The rotation angle measured anti-clockwise as a '
